@@ -1681,6 +1681,28 @@ Proof.
 Qed.
 Print Assumptions four_clauses_combined_with_refused_self_add.
 
+(* ---------------------------------------------------------------- round 14: a non-member with committed configuration does not lead *)
+From BLB Require Raft.NonMemberLeader.
+
+(* [PARTIAL] node level, the three guards of core_candidate.go and core_leader.go behind the statement J: a node whose role is not Follower
+   and whose latest configuration is committed is a member of it.  (1) enterCandidate: a non-member with committed configuration
+   steps back to follower instead of campaigning; (2) leaderCommitUpTo preserves J: the commit that makes a configuration
+   without the leader committed makes it step down; (3) a configuration the leader sets itself (addNode, removeNode) has index
+   lastIndex plus one, above the commit index (verifyNopCommitted has read the term at the commit index), so it is uncommitted
+   when it is set.  PARTIAL: J as a reachable-state invariant over every event of the combined alphabet (walk through the
+   remaining handlers, none of which changes role, configuration and commit index of a candidate or leader other than through
+   these three places) is not assembled, so the residual side condition of wstep stays *)
+Theorem non_member_leader_guards_partial :
+  (forall s, in_latest_conf s = false -> latest_conf_committed s = true -> enter_candidate s = Ret (become_follower s 0)) /\
+  (forall s i s', Raft.NonMemberLeader.Jnm s -> leader_commit_up_to s i = Ret s' -> Raft.NonMemberLeader.Jnm s') /\
+  (forall s nc, verify_nop_committed s = Ret tt -> mb_index nc = last_index (n_p s) + 1 ->
+                latest_conf_committed (set_conf s (Some nc)) = false).
+Proof.
+  exact (conj Raft.NonMemberLeader.enter_candidate_guard
+        (conj Raft.NonMemberLeader.leader_commit_up_to_guard Raft.NonMemberLeader.own_conf_uncommitted)).
+Qed.
+Print Assumptions non_member_leader_guards_partial.
+
 (* NOT YET PROVED (statements kept visible; listed in props/C02.json not_yet_proved):
    the four clauses are proved over the combined alphabet (see the INDEX at the top).  What remains are side conditions of that
    alphabet which are not theorems about raft.go:
@@ -1690,7 +1712,8 @@ Print Assumptions four_clauses_combined_with_refused_self_add.
    (iii) AddNode of the node's own id is covered whenever the core refuses it (add_node_of_self_is_refused,
         four_clauses_combined_with_refused_self_add); the one excluded case is a leader that is not a member of its latest
         configuration although that configuration is committed.  On the real code such a leader has stepped down
-        (leader_commit_up_to); the reachable-state invariant saying so is not proved;
+        (leader_commit_up_to); the three guards are proved (non_member_leader_guards_partial), the reachable-state invariant
+        assembled from them is not;
    (iv) SnapshotDone is issued as fsm_loop.go issues it: an applied position, its term and lastAppliedMembership; the state machine
         loop is outside the model, so this is an assumption about fsm_loop.go checked by reading it.
    The leader-loop contract (leader_commits_own_suffix_with_reconfiguration) covers AddNode, RemoveNode and SnapshotDone inside the
